@@ -85,8 +85,8 @@ Proof.
   destruct (Qltb t0 0 || Qltb (duration w) (last (t0 :: r) 0)); [reflexivity|].
   destruct (negb (inb c (channels w))); [reflexivity|].
   destruct (cv w c); [reflexivity|].
-  destruct (zdiv w c); [reflexivity|]. destruct (kerr w c); [reflexivity|].
-  rewrite (usample_stateless w Hnt). reflexivity.
+  cbv zeta. rewrite (usample_stateless w Hnt). cbn [fst snd].
+  destruct (zdiv w c); [reflexivity|]. destruct (kerr w c); reflexivity.
 Qed.
 
 (* every call of any history is answered like a single call on a fresh object *)
